@@ -44,6 +44,9 @@ def run(ctx: Ctx):
     from .common import generic_lints
 
     generic_lints(ctx)
+    from .common import shared_cache_slots
+
+    shared_cache_slots(ctx, "public-alias.cache-slot", "cubepart.py", "_Slice", ("weighted_counts", "counts", "unweighted_counts", "means", "sums"))
     from .common import dependency_footprints
 
     dependency_footprints(ctx)
